@@ -208,15 +208,14 @@ func (llb *Buffer) ReadFrom(r io.Reader) (n int64, err error) {
 		}
 		n += int64(m)
 		b = b[:m]
+		// Callers of io.Reader must process the m > 0 bytes returned before considering the error.
+		llb.pushBack(&node{buf: b})
 		if err == io.EOF {
-			bsPool.Put(b)
 			return n, nil
 		}
 		if err != nil {
-			bsPool.Put(b)
 			return
 		}
-		llb.pushBack(&node{buf: b})
 	}
 }
 
